@@ -179,6 +179,8 @@ def validate_level_a(ctx, events, strict08, strict09, on_reject, max_rounds=25):
     index_in_block) and removed, and the rest is validated again."""
     recs = level_a(events)
     blocks = split_histories(recs)
+    # second-generation blocks last: a rejected block only costs the re-validation of what follows it
+    blocks = [b for b in blocks if b[0]["ev"] != "gen2"] + [b for b in blocks if b[0]["ev"] == "gen2"]
     ntraces = len(blocks)
     rejected = 0
     for rnd in range(max_rounds):
@@ -332,6 +334,18 @@ def selftest_binding(ctx, events, hists):
                                              consts=dict(Strict08=True, Strict09=True), tag="selfA2")
         if ok or matched != idx:
             raise Machinery("binding self-test A2 failed: hole in a recovered run not rejected (matched %s, want %d)" % (matched, idx))
+    # second generation: a hole in what the recovery of a second-generation snapshot delivered
+    b2 = next((b for b in split_histories(recs) if b[0]["ev"] == "gen2"
+               and any(r["ev"] == "rec" and len(r["D"]) >= 2 for r in b)), None)
+    if b2 is not None:
+        flat = copy.deepcopy(b2)
+        idx = next(i for i, r in enumerate(flat) if r["ev"] == "rec" and len(r["D"]) >= 2)
+        flat[idx]["D"] = flat[idx]["D"][:-2] + flat[idx]["D"][-1:]
+        f = ctx.write_ndjson("selftestA3.ndjson", flat)
+        ok, matched, _ = ctx.validate_traces("QueueContractTrace", "QueueContractTrace.cfg", f, len(flat), 0,
+                                             consts=dict(Strict08=True, Strict09=False), tag="selfA3")
+        if ok or matched != idx:
+            raise Machinery("binding self-test A3 failed: hole in a second-generation recovered run not rejected (matched %s, want %d)" % (matched, idx))
     recsb, nh, sizes = level_b(events, hists)
     bl = split_histories(recsb)
     if bl:
